@@ -1,6 +1,6 @@
 (* Extraction of the feed and TypeMux LTSs for ocaml/feed/driver.ml.  ExtrOcamlBasic only. *)
-From AQ Require Import Lib.Bytes Lib.ExtractBase Feed.FeedLTS Feed.MuxLTS Feed.DupLTS Feed.ScopeLTS.
+From AQ Require Import Lib.Bytes Lib.ExtractBase Feed.FeedLTS Feed.MuxLTS Feed.DupLTS Feed.ScopeLTS Feed.PostMuLTS.
 Require Extraction.
 Require Import ExtrOcamlBasic.
 Extraction "../ocaml/feed/model.ml" base_anchor init step enabled run_from internal count_log count_snd chan_log
-  minit mstep mrun_from mcount dinit dstep drun_from cnt kinit kstep krun_from.
+  minit mstep mrun_from mcount dinit dstep drun_from cnt kinit kstep krun_from pinit pstep prun_from.
